@@ -299,9 +299,9 @@ def r4(ctx):
   # body of the loop fails the entry's stack with an error message
   lp = [n_ for n_ in ast.walk(sd.node) if isinstance(n_, ast.For) and '_tag_map' in U(n_.iter)]
   if lp:
-    s0 = U(lp[0].target.elts[0]) if isinstance(lp[0].target, ast.Tuple) else None
+    s0 = U(lp[0].target.elts[0]) if isinstance(lp[0].target, ast.Tuple) else '%s[0]' % U(lp[0].target)
     calls = [c for c in ast.walk(lp[0]) if isinstance(c, ast.Call) and call_attr(c) == 'AsyncProcessResponseMessage']
-    ok = len(calls) == 1 and U(calls[0].func.value) == s0 and not [x for x in ast.walk(lp[0]) if isinstance(x, (ast.If, ast.Break, ast.Continue))]
+    ok = len(calls) == 1 and U(calls[0].func.value).replace(' ', '') == s0 and not [x for x in ast.walk(lp[0]) if isinstance(x, (ast.If, ast.Break, ast.Continue))]
     msgs = [st for st in walk_no_nested(sd.node) if isinstance(st, ast.Assign) and isinstance(st.value, ast.Call) and U(st.value.func) == 'MethodReturnMessage']
     ok = ok and any(any(k.arg == 'error' for k in m.value.keywords) for m in msgs)
     ctx.ob('C08.R4', sd, 'each in-flight request gets MethodReturnMessage(error=...) unconditionally', ok, 'loop body changed', why)
